@@ -215,3 +215,77 @@ Proof.
   - repeat constructor; vm_compute; reflexivity.
   - cbn [uid_chain euid layout_of snd l_uid]. repeat split; reflexivity.
 Qed.
+
+(* ---------- IF_DATA that a definition describes: the stored offsets are line differences ---------- *)
+From A2L Require Proofs.IfdataLinesProofs.
+Module IL := A2L.Proofs.IfdataLinesProofs.
+
+(* Every line offset that the typed IF_DATA parser stores - with each scalar, with the tag (or the /begin) and with the /end of each
+   tagged item, in any nesting - is the line of that token minus the line of the token in front of it: [IL.goffs g] lists the stored
+   offsets of the value token by token (None for the tags behind /begin and /end, which have no offset of their own), [lines_as] compares
+   them with the lines of the tokens that were read.  (The parser's half of line preservation for IF_DATA content; the writer's half -
+   add_whitespace prints exactly that many line breaks - is the theorem C05_written_lines for the generic elements and is evaluated
+   for IF_DATA.) *)
+Theorem C05_typed_if_data_offsets_are_line_differences : forall f ty c, c_fileid c = O -> (ty_depth ty <= f)%nat ->
+  forall s g s', Inv s -> first_ok s -> parse_ifdata_item f ty c s = (ROk g, s') -> ps_log s' = ps_log s -> ps_after s' <> [] ->
+  exists ts, adv ts s s' /\ lines_as (prevl s) ts (IL.goffs g).
+Proof. intros f ty c Hc Hd. exact (IL.typed_ifdata_offsets_are_line_differences f ty c Hc Hd). Qed.
+Print Assumptions C05_typed_if_data_offsets_are_line_differences.
+
+(* on a concrete block over four lines *)
+Example C05_typed_if_data_offsets_example :
+  match tokenize_core 0 (bytes_of "5" ++ [lf] ++ bytes_of "/begin BLK 9" ++ [lf] ++ bytes_of " 1 0x2 /end BLK" ++ [lf] ++ bytes_of "A 7 /end IF_DATA") with
+  | TOk toks =>
+      match parse_ifdata_item 5 (TStruct [TUInt; TTaggedStruct [Tagged (bytes_of "A") false false TULong;
+                                                              Tagged (bytes_of "BLK") true true (TStruct [TUChar; TSequence TUInt])]])
+                              (mkCtx (bytes_of "IF_DATA") O 1) (init_state toks false 1 []) with
+      | (ROk g, s') => Some (match ps_log s' with [] => true | _ => false end, IL.goffs g)
+      | _ => None
+      end
+  | _ => None
+  end = Some (true, [Some 0; Some 1; None; Some 0; Some 1; Some 0; Some 0; None; Some 1; Some 0]%N).
+Proof. vm_compute. reflexivity. Qed.
+
+(* the writer's half: in the text GenericIfData::write produces for a conforming value whose token texts are well-formed tokens, the
+   white space in front of the i-th token contains exactly as many line breaks as the offset stored with it ([IL.goffs]; none in front
+   of the tags behind /begin and /end).  With the theorem above: what the parser stored as line differences comes out as line breaks. *)
+From A2L Require Proofs.IfdataFollowProofs Proofs.IfdataTextProofs Proofs.IfdataWriteLinesProofs.
+Module IFo := A2L.Proofs.IfdataFollowProofs.
+Module ITx := A2L.Proofs.IfdataTextProofs.
+Module IW := A2L.Proofs.IfdataWriteLinesProofs.
+Theorem C05_written_if_data_line_breaks : forall ftab names f ty g k indent, IFo.conf ftab ty g k -> (ITx.gdepth g <= f)%nat ->
+  Forall LexUnitsProofs.token_text (IFo.ftoks ftab g) ->
+  exists us, gifd_write ftab names f g indent = LexUnitsProofs.render us /\ map snd us = IFo.ftoks ftab g /\
+             map (fun u => count_newlines (fst u)) us = map (fun o => match o with Some n => n | None => 0%N end) (IL.goffs g).
+Proof. intros ftab names f ty g k indent Hc Hd Ht. exact (IW.gifd_write_line_breaks ftab names f ty g k indent Hc Hd Ht). Qed.
+Print Assumptions C05_written_if_data_line_breaks.
+
+(* both halves composed, as for the generic elements (C05_element_lines_preserved): read IF_DATA content with the typed parser, write
+   the value, scan the written text - the i-th token of the written text stands on the line the i-th token had in the input, counted
+   from the token in front of the content.  Conditions: the run reports nothing; the value conforms to the definition and its token
+   texts are well-formed (the writer's half); the tags behind /begin and /end stand on the line of their /begin and /end ([inline],
+   the layout class of the property). *)
+From A2L Require Proofs.LinePreservationProofs Proofs.IfdataLinePreservationProofs.
+Module IP := A2L.Proofs.IfdataLinePreservationProofs.
+Theorem C05_if_data_lines_preserved : forall ftab names f F' ty c s g s' k indent,
+  c_fileid c = O -> Inv s -> first_ok s -> (ty_depth ty <= F')%nat ->
+  parse_ifdata_item F' ty c s = (ROk g, s') -> ps_log s' = ps_log s -> ps_after s' <> [] ->
+  IFo.conf ftab ty g k -> (ITx.gdepth g <= f)%nat -> Forall LexUnitsProofs.token_text (IFo.ftoks ftab g) ->
+  exists ts toks',
+    adv ts s s' /\
+    tokenize_core 0 (gifd_write ftab names f g indent) = TOk toks' /\
+    map shape_of toks' = IFo.ftoks ftab g /\
+    (LinePreservationProofs.inline (prevl s) ts (IL.goffs g) ->
+     Forall2 (fun t' t => (tk_line t' + prevl s = tk_line t + 1)%N) toks' ts).
+Proof. intros ftab names f F' ty c s g s' k indent. exact (IP.ifdata_lines_preserved ftab names f F' ty c s g s' k indent). Qed.
+Print Assumptions C05_if_data_lines_preserved.
+
+(* the same parser-side statement for IF_DATA that no definition describes (parse_unknown_ifdata / parse_unknown_taggedstruct, any
+   nesting): every stored offset - identifiers, strings, numbers, the tag or /begin and the /end of nested items - is a line difference *)
+From A2L Require Proofs.IfdataUnknownLinesProofs.
+Module IUL := A2L.Proofs.IfdataUnknownLinesProofs.
+Theorem C05_uninterpreted_if_data_offsets_are_line_differences : forall f c isb, c_fileid c = O ->
+  forall s g s', Inv s -> first_ok s -> unknown_ifdata f c isb s = (ROk g, s') -> ps_log s' = ps_log s -> ps_after s' <> [] ->
+  exists ts, adv ts s s' /\ lines_as (prevl s) ts (IL.goffs g).
+Proof. intros f c isb Hc. exact (proj1 (IUL.unknown_ifdata_offsets_are_line_differences f) c isb Hc). Qed.
+Print Assumptions C05_uninterpreted_if_data_offsets_are_line_differences.
